@@ -57,6 +57,41 @@ def canonTok (t : Tok) : Tok :=
 
 def tagsOk (ts : List Tok) : Bool := ts.all fun t => match t.tag with | some n => n ≥ 0 | none => true
 
+def parseSchedule (s : String) : Option (List Nat) :=
+  if s == "-" then some [] else (s.splitOn ".").mapM parseNat
+
+def showErr (e : Err) : String := "e" ++ errClass e
+
+/-- run raw reader operations on the scheduled-reader model and on the abstract cursor -/
+def runRdOps : List String → Sched.Sc → Rd → Option Nat → List String → List String → List String × List String
+  | [], _, _, _, am, as => (am.reverse, as.reverse)
+  | op :: ops, z, rd, last, am, as =>
+    match op.toList with
+    | ['r'] =>
+      let (rm, z') := z.readn1
+      let (rs, rd') := rd.read1
+      let sm := match rm with | .ok b => hexOf [b] | .error e => showErr e
+      let (ss, rd2, last') := match rs with
+        | .ok (b, r2) => (hexOf [b], r2, some b)
+        | .error e => (showErr e, rd', none)
+      runRdOps ops z' rd2 last' (sm :: am) (ss :: as)
+    | ['u'] =>
+      let (sm, z') := match z.unreadByte with | some z2 => ("u", z2) | none => ("P", z)
+      let (ss, rd') := match last with | some b => ("u", rd.unread1 b) | none => ("P", rd)
+      runRdOps ops z' rd' none (sm :: am) (ss :: as)
+    | c :: ks =>
+      if c == 'n' || c == 'z' then
+        match parseNatChars ks with
+        | some k =>
+          let (rm, z') := z.readN k
+          let (rs, rd') := rd.readN k
+          let sm := match rm with | .ok bs => hexOrDash bs | .error e => showErr e
+          let ss := match rs with | .ok bs => hexOrDash bs | .error e => showErr e
+          runRdOps ops z' rd' none (sm :: am) (ss :: as)
+        | none => (["bad"], ["bad"])
+      else (["bad"], ["bad"])
+    | _ => (["bad"], ["bad"])
+
 def handle (parts : List String) : String :=
   match parts with
   | ["acc", f, toks] =>
@@ -92,6 +127,24 @@ def handle (parts : List String) : String :=
         | some (v, rest) => showToks v.flatten ++ "/" ++ toString rest.length ++ "/ok"
         | none => "E"
       "M=" ++ showDec o ++ " n=" ++ toString o.steps ++ " a=" ++ toString o.alloc ++ " S=" ++ spec
+    | none => "bad-op"
+  | ["rdops", hx, sch, eof, ops] =>
+    match parseHex hx, parseSchedule sch with
+    | some bs, some chunks =>
+      let z := Sched.Sc.ofSrc ⟨bs, chunks, eof == "1"⟩
+      let (am, as) := runRdOps (ops.splitOn ",") z (Rd.ofBytes bs) none [] []
+      "M=" ++ ",".intercalate am ++ " S=" ++ ",".intercalate as
+    | _, _ => "bad-op"
+  | ["sched", f, hx, _sch, _eof] =>
+    match parseHex hx with
+    | some bs =>
+      -- schedule independence: the model's answer does not look at the schedule at all
+      if f == "cbor" then
+        let o := CborDec.decode false (Rd.ofBytes bs)
+        "M=" ++ showToks o.toks ++ "/" ++ (match o.res with | .ok _ => "ok" | .error e => errClass e)
+      else
+        let o := JsonDec.decode (Rd.ofBytes bs)
+        "M=" ++ showToks o.toks ++ "/" ++ (match o.res with | .ok _ => "ok" | .error e => errClass e)
     | none => "bad-op"
   | ["jsondec", hx] =>
     match parseHex hx with
